@@ -22,6 +22,22 @@ using bspline::support::Support;
 using namespace bspline::operators;
 
 struct ScalarFault {};
+// ---- second kind of fault: the k-th allocation through operator new fails (std::bad_alloc) ------------------------------
+#if !defined(VF_SAN) && !defined(VF_VALGRIND)
+#define VF_ALLOC_FAULTS 1
+static long g_allocs = 0, g_alloc_fail_at = -1;
+void *operator new(size_t n) {
+  ++g_allocs;
+  if (g_alloc_fail_at > 0 && g_allocs == g_alloc_fail_at) throw std::bad_alloc();
+  void *p = malloc(n ? n : 1);
+  if (!p) throw std::bad_alloc();
+  return p;
+}
+void operator delete(void *p) noexcept { free(p); }
+void operator delete(void *p, size_t) noexcept { free(p); }
+#else
+static long g_allocs = 0, g_alloc_fail_at = -1;
+#endif
 static long g_ticks = 0, g_fault_at = -1;
 static inline void tick() {
   ++g_ticks;
@@ -88,10 +104,13 @@ struct World {
   World(Win wt, Win wa, const std::vector<FQ> &pts) : g(pts), gc(pts), t(mk<2>(g, wt, 3)), a2(mk<2>(gc, wa, 11)), a1(mk<1>(g, wa, 5)), a0(mk<0>(g, wa, 17)) {}
 };
 
-static const char *OPN[] = {"t+=a2", "t-=a2", "t+=a1", "t-=a0", "t*=c", "t/=c", "t=a1", "t=a0", "t=t+a2", "t=t*a0", "t=(c*I)*t", "t=lincomb({c,d},{t,a2})", "t=-t", "t=(X<1>*Dx<1>)*t", "t=a2*c", "t=t-a1"};
-static constexpr int NOPS = 16;
+static const char *OPN[] = {"t=a2(copy)", "t=move(copy of a2)", "t+=a2", "t-=a2", "t+=a1", "t-=a0", "t*=c", "t/=c", "t=a1", "t=a0", "t=t+a2", "t=t*a0", "t=(c*I)*t", "t=lincomb({c,d},{t,a2})", "t=-t", "t=(X<1>*Dx<1>)*t", "t=a2*c", "t=t-a1"};
+static constexpr int NOPS = 18;
 static void run_op(int op, World &w) {
   const FQ c(mpq_class(5, 3)), d(mpq_class(-2, 7));
+  if (op == 0) { w.t = w.a2; return; }
+  if (op == 1) { S2 tmp(w.a2); w.t = std::move(tmp); return; }
+  op -= 2;
   switch (op) {
     case 0: w.t += w.a2; break;
     case 1: w.t -= w.a2; break;
@@ -121,34 +140,44 @@ int main(int argc, char **argv) {
   for (int op = 0; op < NOPS; op++)
     for (Win wt : W)
       for (Win wa : W) {
-        // fault-free run: number of scalar operations and the result
-        long N = 0;
+        // fault-free run: number of scalar operations / allocations and the result
+        long N[2] = {0, 0};
         std::string good;
         {
           // (always executed: needed to know how many fault positions this case has; not counted as a case)
           World w(wt, wa, pts);
           g_fault_at = -1;
+          g_alloc_fail_at = -1;
           g_ticks = 0;
+          long a0 = g_allocs;
           try { run_op(op, w); } catch (...) { continue; }  // not an admissible call for these shapes
-          N = g_ticks;
+          N[0] = g_ticks;
+          N[1] = g_allocs - a0;
           good = snap(w.t);
         }
-        for (long k = 1; k <= N; k++) {
+#ifndef VF_ALLOC_FAULTS
+        N[1] = 0;
+#endif
+        for (int kind = 0; kind < 2; kind++)
+        for (long k = 1; k <= N[kind]; k++) {
           if (!H.take()) continue;
-          H.begin(std::string(OPN[op]) + ";t=" + wstr(wt) + ";a=" + wstr(wa) + ";fault-at=" + std::to_string(k) + "/" + std::to_string(N));
+          H.begin(std::string(OPN[op]) + ";t=" + wstr(wt) + ";a=" + wstr(wa) + (kind ? ";alloc-fault-at=" : ";fault-at=") + std::to_string(k) + "/" + std::to_string(N[kind]));
           long nv0 = H.nviol;
           World w(wt, wa, pts);
           std::string t0 = snap(w.t), a20 = snap(w.a2), a10 = snap(w.a1), a00 = snap(w.a0);
           bool threw = false;
           g_ticks = 0;
-          g_fault_at = k;
-          try { run_op(op, w); } catch (const ScalarFault &) { threw = true; } catch (const std::exception &e) { g_fault_at = -1; H.fail("fault:C14:foreign-exception", std::string("the scalar's exception was replaced by ") + e.what()); threw = true; }
+          if (kind == 0) g_fault_at = k; else g_alloc_fail_at = g_allocs + k;
+          try { run_op(op, w); } catch (const ScalarFault &) { threw = true; } catch (const std::bad_alloc &) { threw = true; if (kind == 0) { g_fault_at = -1; H.fail("fault:C14:foreign-exception", "the scalar's exception was replaced by std::bad_alloc"); } }
+          catch (const std::exception &e) { g_fault_at = -1; g_alloc_fail_at = -1; H.fail("fault:C14:foreign-exception", std::string("the injected exception was replaced by ") + e.what()); threw = true; }
           g_fault_at = -1;
-          if (!valid(w.t) || !valid(w.a2) || !valid(w.a1) || !valid(w.a0)) H.fail("fault:C10:invariant", "after the failed call an object holds a coefficient count different from its interval count (or a window outside its grid)");
+          g_alloc_fail_at = -1;
+          const std::string what = kind ? "allocation " + std::to_string(k) + " of " + std::to_string(N[kind]) + " failed" : "scalar operation " + std::to_string(k) + " of " + std::to_string(N[kind]) + " failed";
+          if (!valid(w.t) || !valid(w.a2) || !valid(w.a1) || !valid(w.a0)) H.fail("fault:C10:invariant", "after the failed call (" + what + ") an object holds a coefficient count different from its interval count (or a window outside its grid): target " + snap(w.t).substr(0, 160));
           else {
             if (threw) {
-              if (snap(w.t) != t0) H.fail("fault:C14:target-changed", "the call threw (scalar operation " + std::to_string(k) + " of " + std::to_string(N) + " failed) and left its target changed: " + snap(w.t).substr(0, 200) + " instead of " + t0.substr(0, 200));
-            } else if (snap(w.t) != good) H.fail("fault:C14:wrong-after-swallowed-fault", "the scalar's exception did not propagate and the result differs from the fault-free one");
+              if (snap(w.t) != t0) H.fail("fault:C14:target-changed", "the call threw (" + what + ") and left its target changed: " + snap(w.t).substr(0, 200) + " instead of " + t0.substr(0, 200));
+            } else if (snap(w.t) != good) H.fail("fault:C14:wrong-after-swallowed-fault", "the injected exception did not propagate and the result differs from the fault-free one");
             if (snap(w.a2) != a20 || snap(w.a1) != a10 || snap(w.a0) != a00) H.fail("fault:C14:operand-changed", "an operand changed during the failed call");
             if (threw && snap(w.t) == t0) {
               // the survivors are still usable: the same call now succeeds with the fault-free result
@@ -157,10 +186,10 @@ int main(int argc, char **argv) {
               catch (...) { H.fail("fault:C10:unusable-after-failed-call", "repeating the call after the failure throws"); }
             }
           }
-          if (H.nviol > nv0) H.count(std::string("cases_with_violation:") + OPN[op]);
+          if (H.nviol > nv0) H.count(std::string("cases_with_violation:") + OPN[op] + (kind ? ":alloc" : ":arith"));
           H.cls(std::string("op:") + OPN[op]);
-          H.cls(threw ? "threw" : "swallowed");
-          H.count("fault_positions");
+          H.cls(threw ? (kind ? "threw:alloc" : "threw") : "swallowed");
+          H.count(kind ? "alloc_fault_positions" : "fault_positions");
           H.nontriv();
           H.end();
         }
